@@ -4,8 +4,11 @@
    entry against the writer, the reader's end and cancellation, one atomic step per transition, so a
    statement over [greach] covers EVERY interleaving.  The Go scheduler's fairness, the tar parser and
    the destination FS are not modelled; truncated/corrupt streams, failing destinations and 1..8 real
-   openers are exercised end to end by the harness. *)
-From HP Require Import Base.Prelude Tar.PubSub Tar.PubSubProofs.
+   openers are exercised end to end by the harness.
+   Tar/Workers.v models the END of the reader: the background writers of small files, the one-slot error channel, the
+   WaitGroup and the final select; its theorems say that the reader always returns (so Done() fires and every Open comes
+   back) and that it returns nil only if no background write failed. *)
+From HP Require Import Base.Prelude Tar.PubSub Tar.PubSubProofs Tar.Workers.
 Open Scope nat_scope.
 
 (* pubsub: a waiter is released by an Emit of its key and by cancellation, stays released, and is
@@ -68,3 +71,36 @@ Proof.
   - simpl. auto.
 Qed.
 Print Assumptions C13_cancel_midway_fails.
+
+(* ---- the reader's end: n background writers (any of which may fail), the one-slot error channel, the WaitGroup, the
+   goroutine closing [done], and the reader polling / selecting; [wreach] is ANY interleaving ---- *)
+
+(* the error wins: readErr returns nil only if no background write failed (so UnarchiveErr is set whenever one did) *)
+Theorem C13_reader_returns_nil_only_if_no_write_failed : forall flags st,
+  wreach (winit flags) st -> w_reader st = RRet false -> count_true flags = 0.
+Proof. exact nil_only_if_no_write_failed. Qed.
+Print Assumptions C13_reader_returns_nil_only_if_no_write_failed.
+
+(* no deadlock between the one-slot channel, the WaitGroup and the final select: while the reader has not returned,
+   some goroutine can take a step ... *)
+Theorem C13_reader_never_blocked_for_good : forall flags st,
+  wreach (winit flags) st -> (forall e, w_reader st <> RRet e) -> exists a st1, wstep st a = Some st1.
+Proof. exact reader_never_stuck. Qed.
+Print Assumptions C13_reader_never_blocked_for_good.
+
+(* ... every step uses something up (executions are finite) ... *)
+Theorem C13_every_step_decreases_the_measure : forall st a st1, wstep st a = Some st1 -> measure st1 < measure st.
+Proof. exact every_step_decreases. Qed.
+Print Assumptions C13_every_step_decreases_the_measure.
+
+(* ... hence from every reachable state the reader does return: Done() fires, every Open comes back. *)
+Theorem C13_reader_returns : forall flags st, wreach (winit flags) st ->
+  exists st2 e, wreach st st2 /\ w_reader st2 = RRet e.
+Proof. intros flags st R. exact (reader_returns flags (measure st) st (le_n _) R). Qed.
+Print Assumptions C13_reader_returns.
+
+(* Non-vacuity: three of four writers fail; every interleaving ends with the reader returning the error. *)
+Example C13_workers_nonvacuous :
+  C13_workers_check ([true; true; true; false], true) = true /\ C13_workers_check ([false; false; false], false) = true.
+Proof. exact (conj workers_three_failures (proj1 workers_no_failure)). Qed.
+Print Assumptions C13_workers_nonvacuous.
